@@ -56,6 +56,16 @@ func Load(cfg Config) (*Program, error) {
 		env = append(env, e)
 	}
 	env = append(env, "GOWORK=off", "GOFLAGS=-mod=mod", "GOPROXY=off", "GOSUMDB=off", "GOTOOLCHAIN=local")
+	// /repo/go/go.mod needs go >= 1.26.2; the default `go` on PATH is older.  Put the pinned toolchain first
+	// even when the caller did not source env.sh.
+	const pinned = "/opt/veriftools/go1.26.8/bin"
+	if _, err := os.Stat(pinned + "/go"); err == nil {
+		for i, e := range env {
+			if strings.HasPrefix(e, "PATH=") && !strings.HasPrefix(e, "PATH="+pinned+":") {
+				env[i] = "PATH=" + pinned + ":" + strings.TrimPrefix(e, "PATH=")
+			}
+		}
+	}
 	cfgName := "default"
 	if cfg.GOOS != "" {
 		env = append(env, "GOOS="+cfg.GOOS, "CGO_ENABLED=0")
